@@ -3,6 +3,7 @@
 package main
 
 import (
+	"time"
 	"encoding/binary"
 	"bytes"
 	"encoding/json"
@@ -40,7 +41,11 @@ type FilePlan struct {
 	// a large deployment: Bulk further exporters each announce one template of
 	// BulkFields specifiers before the cache is saved (built at run time, the
 	// plan stays small); such a run saves and loads the file a few times only
-	Bulk       int `json:"bulk,omitempty"`
+	// simulated time that passes between the last announcement and the save,
+	// and between the save and the load (seconds): hours, days
+	AgeSec  int64 `json:"age_sec,omitempty"`
+	DownSec int64 `json:"down_sec,omitempty"`
+	Bulk    int   `json:"bulk,omitempty"`
 	BulkFields int `json:"bulk_fields,omitempty"`
 	Prefixes     []int         `json:"prefixes"` // explicit prefix lengths (negative: from the end); empty with AllPrefixes
 	AllPrefixes  bool          `json:"all_prefixes"`
@@ -116,6 +121,7 @@ type fileFinding struct {
 }
 
 type fileRun struct {
+	Unfinished bool
 	File     []byte
 	Variants int
 	Loaded   int // variants in which at least one saved key was still known
@@ -297,12 +303,25 @@ func runCacheFile(p *FilePlan, ch *simrt.Choices) *fileRun {
 			ref[i] = js
 		}
 		path := "/tmp/cache.file"
+		if p.AgeSec > 0 {
+			simrt.Sleep(time.Duration(p.AgeSec) * time.Second)
+			// the exporters kept sending data all the time: the reference is what
+			// the running collector decodes at the moment it is stopped
+			for i := range probes {
+				d := &probes[i]
+				_, js, _ := orig.decode(srcAddr(&p.Exporters[d.Exporter]).IP, append([]byte(nil), d.payload...))
+				ref[i] = js
+			}
+		}
 		if err := orig.dump(path); err != nil {
 			find("dump-error", "dump", err.Error())
 			return
 		}
 		valid, _ := sim.FS.Get(path)
 		res.File = valid
+		if p.DownSec > 0 {
+			simrt.Sleep(time.Duration(p.DownSec) * time.Second)
+		}
 		// one variant: install content (or fault), load, check
 		variant := func(kind string, content []byte, present bool, readErr error, exact bool) {
 			res.Variants++
@@ -533,8 +552,10 @@ func runCacheFile(p *FilePlan, ch *simrt.Choices) *fileRun {
 		}
 	})
 	sim.OnIdle = func() bool { return done }
+	sim.IdleLimit = 2000 * 24 * time.Hour // silences of hours and days are part of the histories
 	sim.Run()
 	res.Steps = sim.Seq
+	res.Unfinished = !done
 	sim.Teardown()
 	return res
 }
@@ -613,6 +634,12 @@ func genFilePlan(seed int64, tier string) *FilePlan {
 				p.Gen2Probes = append(p.Gen2Probes, Delivery{Proto: p.Proto, Exporter: e, Abs: pm})
 			}
 		}
+	}
+	if r.Intn(3) == 0 {
+		p.AgeSec = []int64{1, 3600, 7300, 90000, 40 * 86400, 400 * 86400}[r.Intn(6)]
+	}
+	if r.Intn(4) == 0 {
+		p.DownSec = []int64{1, 3600, 7300, 90000, 40 * 86400}[r.Intn(5)]
 	}
 	if r.Intn(50) == 0 {
 		// a large deployment: the file grows to tens of megabytes
@@ -709,6 +736,9 @@ func execCacheFile(t *testing.T, prop string, planJSON []byte, ch *simrt.Choices
 		return out
 	}
 	out.Steps = res.Steps
+	if res.Unfinished && len(res.Findings) == 0 {
+		out.Inconclusive = "scenario-did-not-finish"
+	}
 	out.Choices = ch.Rec
 	out.NonTrivial = res.Variants > 1
 	out.TraceHash = hash64(res.File)
